@@ -238,6 +238,113 @@ def run(ctx):
                     if res != (not flip):
                         oracle_bad.append(d)
 
+    # ---- every way of constructing a state (int, list of strings with and without phases, networkx graph, copy, integer array without dtype):
+    # the constructed state must denote the documented tableau AND behave like it under every gate (same Coq gate cases as above) -----------
+    import networkx as nx
+    from simulaqron.toolbox.stabilizer_states import StabilizerState
+    PNAME = {(False, False): "I", (True, False): "X", (True, True): "Y", (False, True): "Z"}
+
+    def as_strings(t, n, explicit_plus):
+        out = []
+        for r in t:
+            body = "".join(PNAME[(bool(r[i]), bool(r[n + i]))] for i in range(n))
+            out.append(("-1" if r[2 * n] else ("+1" if explicit_plus else "")) + body)
+        return out
+
+    def constructed_cases(label, make, n, expect):
+        """make() -> fresh StabilizerState; expect = its documented tableau"""
+        s0 = make()
+        got = S.arr_of(s0)
+        ctx.count("constructor_" + label)
+        if got != expect or s0.num_qubits != n:
+            oracle_bad.append({"op": "construct:" + label, "n": n, "expected": expect, "impl_out": got})
+            return
+        for g in S.G1 + S.G2:
+            if g in S.G2 and n < 2:
+                continue
+            pos = (rng.randrange(n),) if g in S.G1 else tuple(rng.sample(range(n), 2))
+            s1 = make()
+            try:
+                getattr(s1, "apply_" + g)(*pos)
+            except Exception as e:               # noqa: BLE001   a gate on a freshly constructed valid state must not fail
+                oracle_bad.append({"op": "apply_%s after construct:%s" % (g, label), "n": n, "pos": list(pos), "in": expect,
+                                   "impl_out": "%s: %s" % (type(e).__name__, e)})
+                return
+            tout = S.arr_of(s1)
+            d = {"op": "apply_" + g, "n": n, "pos": list(pos), "in": expect, "impl_out": tout, "constructed_by": label}
+            cases.append((gate_case(n, g, pos, expect, tout), d))
+            ctx.case(("ctor", label, g, pos, str(expect)), nontrivial=True)
+            if n <= 6 and not S.oracle_gate(expect, n, g, pos, tout):
+                oracle_bad.append(d)
+    for _ in range(60 if thorough else 12):
+        n = rng.randrange(1, 6)
+        gr = nx.gnp_random_graph(n, 0.5, seed=rng.randrange(10 ** 6))
+        adj = [[gr.has_edge(i, j) for j in range(n)] for i in range(n)]
+        expect = [[i == j for j in range(n)] + [adj[i][j] for j in range(n)] + [False] for i in range(n)]
+        constructed_cases("networkx_graph", lambda gr=gr: StabilizerState(gr), n, expect)
+        constructed_cases("int", lambda n=n: StabilizerState(n), n, [[False] * n + [i == j for j in range(n)] + [False] for i in range(n)])
+        t = S.tabl(O.ref_random_tableau(n, rng))
+        constructed_cases("strings", lambda t=t, n=n: StabilizerState(as_strings(t, n, False)), n, t)
+        constructed_cases("strings_explicit_phase", lambda t=t, n=n: StabilizerState(as_strings(t, n, True)), n, t)
+        constructed_cases("int_array", lambda t=t: StabilizerState(np.array(t, dtype=int)), n, t)
+        constructed_cases("nested_lists_of_ints", lambda t=t: StabilizerState([[int(x) for x in r] for r in t]), n, t)
+        constructed_cases("copy", lambda t=t: StabilizerState(S.mk_state(t)), n, t)
+        if not any(r[2 * n] for r in t):
+            constructed_cases("array_without_phase_column", lambda t=t, n=n: StabilizerState(np.array([r[:2 * n] for r in t], dtype=bool)), n, t)
+
+    # ---- queries after in-place changes: == / to_array(standard_form=True) / contains must describe the CURRENT group, also when the object
+    # was put into standard form (or compared) before it was changed ----------------------------------------------------------------------
+    stale_bad = []
+    for _ in range(200 if thorough else 50):
+        n = rng.randrange(1, 5)
+        t = S.tabl(O.ref_random_tableau(n, rng))
+        s1 = S.mk_state(t)
+        pre = rng.choice(["put_in_standard_form", "eq", "to_array_sf", "contains", "none"])
+        if pre == "put_in_standard_form":
+            s1.put_in_standard_form()
+        elif pre == "eq":
+            s1 == S.mk_state(t)
+        elif pre == "to_array_sf":
+            s1.to_array(standard_form=True)
+        elif pre == "contains":
+            s1.contains(t[0])
+        cur = O.ref_zero(n) * False if False else None
+        ref = np.array(S.arr_of(s1), dtype=bool)             # same group as t (possibly other generators)
+        seq = []
+        for _g in range(rng.randrange(1, 4)):
+            g = rng.choice(S.G1 + (S.G2 if n > 1 else []))
+            pos = (rng.randrange(n),) if g in S.G1 else tuple(rng.sample(range(n), 2))
+            getattr(s1, "apply_" + g)(*pos)
+            seq.append((g, pos))
+            for gg in {"X": [], "Z": [], "Y": [], "H": ["H"], "S": ["S"], "K": None, "CNOT": ["CNOT"], "CZ": None}.get(g) or []:
+                ref = O.ref_gate(ref, n, gg, *pos)
+            if g in ("X", "Y", "Z", "K", "CZ"):
+                ref = None
+                break
+        ctx.count("stale_query_probes")
+        if ref is None:
+            # gates the reference simulator does not have: use the implementation's own stored generators as the description of the new group
+            expect = S.arr_of(s1)
+        else:
+            expect = S.tabl(ref)
+        fresh = S.mk_state(expect)
+        other = S.mk_state(t)
+        same_as_before = O.close(O.projector(expect, n), O.projector(t, n)) if n <= 5 else None
+        problems = []
+        if not (s1 == fresh) or not (fresh == s1):
+            problems.append("== with a fresh state of the same group is False")
+        if same_as_before is False and (s1 == other):
+            problems.append("== with the state before the gates is True although the group changed")
+        if S.tabl(s1.to_array(standard_form=True)) != S.tabl(fresh.to_array(standard_form=True)):
+            problems.append("to_array(standard_form=True) differs from that of a fresh state of the same group")
+        if not all(s1.contains(r) for r in expect):
+            problems.append("contains() rejects a current generator")
+        ctx.case(("stale", pre, str(t), str(seq)), nontrivial=True)
+        if problems:
+            stale_bad.append({"op": "stale-query", "n": n, "before": t, "first": pre, "gates": [[g, list(p)] for g, p in seq], "problems": problems})
+    ctx.obligation("queries (==, to_array(standard_form=True), contains) describe the current group after in-place gates, whatever was called before",
+                   not stale_bad, repr(stale_bad[:1]))
+
     # ---- value semantics: the model's operations return new values; in the code the results of copy / tensor product / add_qubit / queries must
     # not share storage with their operands (a later gate on one object must not conjugate another)
     alias_bad = []
@@ -277,6 +384,9 @@ def run(ctx):
                    not oracle_bad, repr(oracle_bad[:1]))
 
     # ---- verdict -------------------------------------------------------------------------------------------------
+    if stale_bad:
+        d = stale_bad[0]
+        ctx.report("oracle:stale-query", "after %s and the gates %r: %s" % (d["first"], d["gates"], "; ".join(d["problems"])), d, True)
     if alias_bad:
         d = alias_bad[0]
         ctx.report("oracle:aliasing", "gates applied to `%s` also changed `%s`: the objects share their generator matrix" % (d["mutated"], d["changed_too"]), d, True)
